@@ -843,6 +843,7 @@ func (x *run) checkLockups(b, parent *blk, pst *state.StateDB, receipts types.Re
 		return false, true
 	}
 	outboundClaims := map[common.Hash][]*types.Transaction{} // originating tx -> claim ETXs emitted by this block
+	claimedHere := map[string]bool{}                         // records paid out by an earlier transaction of this block
 	for _, e := range b.wo.OutboundEtxs() {
 		if e.EtxType() == types.CoinbaseLockupType {
 			outboundClaims[e.OriginatingTxHash()] = append(outboundClaims[e.OriginatingTxHash()], e)
@@ -982,6 +983,10 @@ func (x *run) checkLockups(b, parent *blk, pst *state.StateDB, receipts types.Re
 					x.m.Violation("claim-etx-emitted-by-refused-claim:"+reason, fmt.Sprintf("%d claim ETXs emitted for a claim that must fail (%s, trailing bytes %d, receipt failed %v)", len(etxs), reason, cl.Trailing, failed), w)
 				}
 				x.m.Eval(cls, tx.Hash().Hex())
+				if reason == "no-record" && claimedHere[k] {
+					// the record was paid out by an earlier transaction of this very block (pending delete in the block batch)
+					x.m.Eval("claim-refused:no-record:claimed-earlier-in-this-block", tx.Hash().Hex())
+				}
 				continue
 			}
 			// an allowed claim: if it succeeded it must pay exactly the accumulated balance, once
@@ -1016,6 +1021,7 @@ func (x *run) checkLockups(b, parent *blk, pst *state.StateDB, receipts types.Re
 			x.m.Eval("claim:owner-after-unlock:paid-exact-balance-once", tx.Hash().Hex())
 			x.m.SampleClass("claimed", map[string]any{"block": b.num, "claim": fmt.Sprintf("%+v", cl), "balance": rec.Balance.String(), "elements": rec.Elements, "tranche": rec.Tranche})
 			delete(model, k)
+			claimedHere[k] = true
 		}
 	}
 	_ = knownDeviation
